@@ -53,6 +53,8 @@ theorem sem_stmt_neg (n : Nat) (k : Ctx) (c : Cmd) (e : Env) :
       match sem n { k with ign := true } (.cmd c) e with
       | none => none
       | some (.norm, e1) => some (.norm, { e1 with status := if e1.status = 0 then 1 else 0 })
+      | some (.brk m, e1) => some (.brk m, { e1 with status := if e1.status = 0 then 1 else 0 })
+      | some (.cont m, e1) => some (.cont m, { e1 with status := if e1.status = 0 then 1 else 0 })
       | some r => some r := by
   rw [sem]
   simp only [↓reduceIte]
